@@ -72,8 +72,8 @@ theorem expandX_fuel : ∀ (k : Nat) (top : CRow) (rest : List CRow) (f f' : Nat
 /-- one unfolding of `popRow` on a top row that still has an input `X` -/
 theorem popRow_split (top : CRow) (rest : List CRow) (i : Nat) (h : lastInputX tc top.entries = some i) :
     popRow tc (top :: rest) =
-      popRow tc ({ top with entries := top.entries.set i (.num 0) } ::
-                 { top with entries := top.entries.set i (.num 1) } :: rest) := by
+      popRow tc ({ top with entries := top.entries.set i (.num 0), xcols := i :: top.xcols } ::
+                 { top with entries := top.entries.set i (.num 1), xcols := i :: top.xcols } :: rest) := by
   obtain ⟨_, h2, h3⟩ := lastX_some tc top.entries 0 i 0 h
   simp only [Nat.sub_zero] at h2 h3
   have hle := numX_le_length tc (top.entries.set i (.num 0)) 0
@@ -82,8 +82,8 @@ theorem popRow_split (top : CRow) (rest : List CRow) (i : Nat) (h : lastInputX t
   unfold popRow
   simp only [List.head?_cons, Option.map_some, Option.getD_some, List.length_set]
   have : expandX tc (top.entries.length + 1) (top :: rest) =
-      expandX tc top.entries.length ({ top with entries := top.entries.set i (.num 0) } ::
-                 { top with entries := top.entries.set i (.num 1) } :: rest) := by
+      expandX tc top.entries.length ({ top with entries := top.entries.set i (.num 0), xcols := i :: top.xcols } ::
+                 { top with entries := top.entries.set i (.num 1), xcols := i :: top.xcols } :: rest) := by
     simp only [expandX, h]
   rw [this]
   rw [expandX_fuel tc (numInputX tc (top.entries.set i (.num 0))) _ _ top.entries.length (top.entries.length + 1)
@@ -148,14 +148,14 @@ theorem drain_triple (r : CRow) (rest : List CRow) (f : Nat) (out : List CRow)
     drain tc (f + (tripleOf tc r).length) (r :: rest) = some (tripleOf tc r ++ out) := by
   by_cases hc : hasInputCFrom tc r.entries 0 = true
   · -- clock triple
-    have hpop : popRow tc (r :: rest) = .ok (⟨clockBlank tc 0 r.entries, r.line, false⟩,
-        ⟨clockBlank tc 1 r.entries, r.line, false⟩ :: ⟨clockLow tc 0 r.entries, r.line, r.upd⟩ :: rest) := by
+    have hpop : popRow tc (r :: rest) = .ok (⟨clockBlank tc 0 r.entries, r.line, false, r.xcols⟩,
+        ⟨clockBlank tc 1 r.entries, r.line, false, r.xcols⟩ :: ⟨clockLow tc 0 r.entries, r.line, r.upd, r.xcols⟩ :: rest) := by
       unfold popRow
       simp only [List.head?_cons, Option.map_some, Option.getD_some, expandX, hx, expandC, hc, hwf]
       rfl
-    have hb1 := popRow_plain tc ⟨clockBlank tc 1 r.entries, r.line, false⟩ (⟨clockLow tc 0 r.entries, r.line, r.upd⟩ :: rest)
+    have hb1 := popRow_plain tc ⟨clockBlank tc 1 r.entries, r.line, false, r.xcols⟩ (⟨clockLow tc 0 r.entries, r.line, r.upd, r.xcols⟩ :: rest)
       (clock_no_X tc _ (blank_props tc 1).2 r.entries 0 hx) (clock_no_C tc _ (blank_props tc 1).1 r.entries 0)
-    have hb0 := popRow_plain tc ⟨clockLow tc 0 r.entries, r.line, r.upd⟩ rest
+    have hb0 := popRow_plain tc ⟨clockLow tc 0 r.entries, r.line, r.upd, r.xcols⟩ rest
       (clock_no_X tc _ (low_props tc 0).2 r.entries 0 hx) (clock_no_C tc _ (low_props tc 0).1 r.entries 0)
     simp only [tripleOf, hc, if_true, List.length_cons, List.length_nil]
     show drain tc (f + 2 + 1) (r :: rest) = _
@@ -185,22 +185,22 @@ theorem drain_cons : ∀ (k : Nat) (r : CRow) (rest : List CRow) (f : Nat) (out 
       have hk0 : numInputX tc (r.entries.set i (.num 0)) ≤ k := by unfold numInputX at *; omega
       have hk1 : numInputX tc (r.entries.set i (.num 1)) ≤ k := by unfold numInputX at *; omega
       -- the 1-variant sits under the 0-variant
-      have ih1 := drain_cons k { r with entries := r.entries.set i (.num 1) } rest f out hk1
+      have ih1 := drain_cons k { r with entries := r.entries.set i (.num 1), xcols := i :: r.xcols } rest f out hk1
         (by simpa using hwf) hrest
-      have ih0 := drain_cons k { r with entries := r.entries.set i (.num 0) }
-        ({ r with entries := r.entries.set i (.num 1) } :: rest) _ _ hk0 (by simpa using hwf) ih1
+      have ih0 := drain_cons k { r with entries := r.entries.set i (.num 0), xcols := i :: r.xcols }
+        ({ r with entries := r.entries.set i (.num 1), xcols := i :: r.xcols } :: rest) _ _ hk0 (by simpa using hwf) ih1
       simp only [expR, h, List.length_append, List.append_assoc]
       have hsplit : ∀ g, drain tc g (r :: rest) =
-          drain tc g ({ r with entries := r.entries.set i (.num 0) } :: { r with entries := r.entries.set i (.num 1) } :: rest) := by
+          drain tc g ({ r with entries := r.entries.set i (.num 0), xcols := i :: r.xcols } :: { r with entries := r.entries.set i (.num 1), xcols := i :: r.xcols } :: rest) := by
         intro g
         cases g with
         | zero => rfl
         | succ g => simp only [drain, popRow_split tc r rest i h]
       rw [hsplit]
-      have : f + ((expR tc k { r with entries := r.entries.set i (.num 0) }).length +
-            (expR tc k { r with entries := r.entries.set i (.num 1) }).length) =
-          f + (expR tc k { r with entries := r.entries.set i (.num 1) }).length +
-            (expR tc k { r with entries := r.entries.set i (.num 0) }).length := by omega
+      have : f + ((expR tc k { r with entries := r.entries.set i (.num 0), xcols := i :: r.xcols }).length +
+            (expR tc k { r with entries := r.entries.set i (.num 1), xcols := i :: r.xcols }).length) =
+          f + (expR tc k { r with entries := r.entries.set i (.num 1), xcols := i :: r.xcols }).length +
+            (expR tc k { r with entries := r.entries.set i (.num 0), xcols := i :: r.xcols }).length := by omega
       rw [this]
       exact ih0
 
@@ -277,8 +277,8 @@ theorem expR_length : ∀ (k : Nat) (r : CRow), numInputX tc r.entries = k →
       obtain ⟨_, _, h3'⟩ := lastX_some tc r.entries 0 i 1 h
       obtain ⟨hx, _⟩ := lastX_some_is tc r.entries 0 i h
       simp only [Nat.sub_zero] at h2 h3 h3' hx
-      have e0 := expR_length k { r with entries := r.entries.set i (.num 0) } (by unfold numInputX at *; simp only; omega)
-      have e1 := expR_length k { r with entries := r.entries.set i (.num 1) } (by unfold numInputX at *; simp only; omega)
+      have e0 := expR_length k { r with entries := r.entries.set i (.num 0), xcols := i :: r.xcols } (by unfold numInputX at *; simp only; omega)
+      have e1 := expR_length k { r with entries := r.entries.set i (.num 1), xcols := i :: r.xcols } (by unfold numInputX at *; simp only; omega)
       simp only [expR, h, List.length_append, e0, e1, hasC_set tc r.entries 0 i _ hx]
       rw [Nat.pow_succ]; split <;> omega
 
